@@ -16,6 +16,7 @@ mod c09;
 mod c10;
 mod stats;
 mod c13;
+mod c14;
 mod c16;
 mod c17;
 mod c18;
@@ -52,6 +53,7 @@ fn main() {
         ("c02", "record") => c02::record(rest),
         ("c03", "record") => c03::record(rest),
         ("c04", "record") => c04::record(rest),
+        ("c14", "record") => c14::record(rest),
         (p, m) => util::tool_error(&format!("unknown command {p} {m}")),
     }
 }
